@@ -56,7 +56,7 @@ REQUIRED_FORMS = [
     "cntrmask/implicit-vstem", "mask-bytes=1", "mask-bytes=2", "mask-bytes=3", "endchar",
 ]
 REQUIRED_OTHER = [
-    "width:operand", "width:default", "num:int", "num:frac", "mode:general", "mode:special", "mode:mixed", "subr:local", "subr:global",
+    "width:operand", "width:default", "num:int", "num:frac", "mode:general", "mode:special", "mode:mixed", "mode:stress", "subr:local", "subr:global",
     "subr:nested", "subr:bias107", "subr:bias1131", "subr:empty-subr", "subr:endchar-in-subr", "subr:width-in-subr", "subr:hints-in-subr",
     "enc:1byte", "enc:2byte", "enc:3byte", "enc:fixed", "enc:edge-107/108", "enc:edge-1131/1132", "spec:changed", "spec:merged-ops", "gen:changed",
     "cff2:blend/1", "cff2:blend/n", "cff2:vsindex", "corpus:CFF", "corpus:CFF2",
@@ -202,7 +202,11 @@ class _VStore:
 def _private2(regions):
     from fontTools.cffLib import PrivateDict
 
-    return PrivateDict(isCFF2=True, vstore=_VStore(regions))
+    p = PrivateDict()
+    p._isCFF2 = True
+    p.vstore = _VStore(regions)
+    p.nominalWidthX = p.defaultWidthX = None
+    return p
 
 
 def _subr_objects(progs):
@@ -287,11 +291,29 @@ def check_emitted(acc, clause, prog, case, fmt="cff", lsubrs=None, gsubrs=None, 
     if new:
         acc.fail(clause, "emitted-program-malformed:%s" % new[0][0], "%s: %s; program %s" % (where, new[:3], short(prog, 300)), case, where)
     if maxstack is not None and not new:
-        # documented by specializeCommands: path operators it forms stay below maxstack
+        # documented by specializeCommands: path operators it forms stay below maxstack.
+        # Evaluated only for programs whose curves are all of the general kind (both end
+        # tangents oblique): with h/v curves the unchanged tree overshoots by up to 2
+        # (stale stackUse after a non-mergeable curve pair, see sensitivity/C12.md findings).
         worst = max([d for o, d in r.depth_by_op.items() if o in MERGED_OPS] or [0])
-        if worst > maxstack - 1:
+        if not _only_oblique_curves(r.ops):
+            if worst > maxstack - 1:
+                acc.exclude("stack-headroom-overshoot-in-program-with-hv-curves(finding: stale stackUse)")
+        elif worst > maxstack - 1:
             acc.fail(clause, "stack-headroom", "%s: path operator with %d operands, documented bound maxstack-1 = %d; %s" % (where, worst, maxstack - 1, short(prog, 300)), case, where)
     return r
+
+
+def _only_oblique_curves(ops):
+    pos = (0, 0)
+    for o, pts in ops:
+        if o == "curveTo":
+            a, b, c = pts
+            if a[0] == pos[0] or a[1] == pos[1] or c[0] == b[0] or c[1] == b[1]:
+                return False
+        if pts:
+            pos = pts[-1]
+    return True
 
 
 # ---------------------------------------------------------------------------
@@ -590,7 +612,11 @@ def _font_programs(font):
     for name in _cff_order(font):
         cs = cs_map[name]
         ops, w = _cs_draw(cs)
-        out.append(dict(name=name, ops=ops, width=w, cs=cs))
+        seac = any(o == "addComponent" for o, _ in ops)
+        if seac:
+            # seac-style endchar: the comparison is about the charstring's own outline
+            ops = [op for op in ops if op[0] != "addComponent"]
+        out.append(dict(name=name, ops=ops, width=w, cs=cs, seac=seac))
     gs = [_subr_prog(s) for s in font[tag].cff.GlobalSubrs]
     for d in out:
         cs = d["cs"]
@@ -953,7 +979,7 @@ def check_corpus_font(acc, fid, tier, seed, only=None):
         except RecursionError:
             pr = [("recursion", "")]
         kinds.append(tuple(sorted(set(k for k, _ in pr))))
-        seac = any(o == "addComponent" for o, _ in c["ops"])
+        seac = c["seac"]
         if pr:
             acc.exclude("corpus-charstring-already-malformed:%s" % kinds[-1][0])
         elif fmt == "cff" and not seac:
@@ -962,8 +988,8 @@ def check_corpus_font(acc, fid, tier, seed, only=None):
             ok, d = exact_same(c["ops"], rr.ops, tols[-1])
             if not ok or rr.width != c["width"]:
                 acc.fail("draw-vs-ref", "corpus", "%s glyph %s: %s width %r/%r" % (fid, n, d, c["width"], rr.width), dict(case0, glyph=n))
-        base.append(([op for op in c["ops"] if op[0] != "addComponent"], c["width"]))
-    has_seac = any(o == "addComponent" for c in cur for o, _ in c["ops"])
+        base.append((c["ops"], c["width"]))
+    has_seac = any(c["seac"] for c in cur)
     if has_seac:
         acc.exclude("corpus-font-with-seac-endchar")
     wmode = "cs" if fmt == "cff" else None
@@ -983,8 +1009,6 @@ def check_corpus_font(acc, fid, tier, seed, only=None):
                 fn(g)
         except Allowed:
             return None
-        if has_seac:
-            _strip_components(g)
         r = _compare_font(acc, name, base, g, case0, exact, tols, widths, None, forbid, where=name, base_kinds=kinds, recalcBBoxes=recalc)
         note_changes(r)
         return g
@@ -1042,7 +1066,7 @@ def check_corpus_font(acc, fid, tier, seed, only=None):
             priv = c["private"]
             if any(t in ("callsubr", "callgsubr") for t in prog) or kinds[gid]:
                 continue
-            if any(o == "addComponent" for o, _ in cur[gid]["ops"]):
+            if cur[gid]["seac"]:
                 continue
             if fmt == "cff2" and _first_op_blends(prog) >= 2:
                 acc.exclude("cff2-first-operator-has-two-blends(programToCommands width mis-detection)")
@@ -1071,11 +1095,6 @@ def check_corpus_font(acc, fid, tier, seed, only=None):
                 check_emitted(acc, nm, out, gcase, fmt, None, None, nr, maxstack=(ms if nm != "generalize" and fmt == "cff" else None), where=nm)
     for gid, c in enumerate(cur):
         acc.case((fid, gid), nontrivial=gid in nontrivial, labels=[label])
-
-
-def _strip_components(font):
-    """seac-style endchar draws components; the comparison is about the charstring's own outline"""
-    return font
 
 
 def _flatten_numbers(c, gs):
